@@ -27,7 +27,7 @@ theorem rc4At_isEmpty (key : Bytes) (pos : Nat) (d : Bytes) : (rc4At key pos d).
 
 /-- **unreliable data, end to end**: every packet `send_unreliable(data)` emits decodes, at any endpoint with the same
     unreliable base key and cipher setting, to exactly `data` — and decoding it does not disturb that endpoint -/
-theorem unreliable_end_to_end (env : Env) (hcomp : ∀ b, env.compress b = b) (hdec : ∀ b, env.decompress b = .ok b)
+theorem unreliable_end_to_end (env : Env) (hl : EnvLaws env)
     (now : Time) (a b : Conn) (data : Bytes) (hk : b.unrelKey = a.unrelKey) (hon : b.cipherOn = a.cipherOn) :
     ∀ q ∈ emitted (a.sendUnreliable env now data),
       q.type = TYPE_DATA ∧ hasReliable q.flags = false ∧ b.decodePayload env q = .ok (data, b) := by
@@ -39,7 +39,7 @@ theorem unreliable_end_to_end (env : Env) (hcomp : ∀ b, env.compress b = b) (h
   split at hq
   · simp [emitted, R.fail] at hq
   · simp only [Conn.sendPacket, mkPacket, hack, Conn.assignIf, Bool.false_eq_true, if_false, Conn.assign, hnrel, if_true, hne, ne_eq,
-      not_false_eq_true, Conn.encodeIf, Bool.not_false, and_true, Conn.encodePayload, hcomp] at hq
+      not_false_eq_true, Conn.encodeIf, Bool.not_false, and_true, Conn.encodePayload] at hq
     by_cases hemp : data.isEmpty = true
     · -- an empty payload travels as it is
       simp only [hemp, Bool.not_true, Bool.false_eq_true, and_false, if_false] at hq
@@ -56,6 +56,12 @@ theorem unreliable_end_to_end (env : Env) (hcomp : ∀ b, env.compress b = b) (h
         unfold Conn.decodePayload
         simp
     · have hemp' : data.isEmpty = false := by simpa using hemp
+      have hcne : (env.compress data).isEmpty = false := by
+        have hne : data ≠ [] := by intro h; rw [h] at hemp'; cases hemp'
+        have := hl.nonempty data hne
+        cases hz : env.compress data with
+        | nil => exact absurd hz this
+        | cons _ _ => rfl
       simp only [hemp', Bool.not_false, and_self, if_true] at hq
       cases hc : a.cipherOn with
       | true =>
@@ -67,8 +73,8 @@ theorem unreliable_end_to_end (env : Env) (hcomp : ∀ b, env.compress b = b) (h
           subst hqe
           refine ⟨rfl, hnrel, ?_⟩
           unfold Conn.decodePayload
-          simp only [rc4At_isEmpty, hemp', Bool.not_false, and_self, if_true, hnrel, Bool.false_eq_true, if_false, hon, hc, hk,
-            rc4At_involutive, hdec]
+          simp only [rc4At_isEmpty, hcne, Bool.not_false, and_self, if_true, hnrel, Bool.false_eq_true, if_false, hon, hc, hk,
+            rc4At_involutive, hl.round]
       | false =>
         simp only [hc, Bool.false_eq_true, if_false] at hq
         rcases (transmit_emit env now _ _).1 with h | h
@@ -78,6 +84,6 @@ theorem unreliable_end_to_end (env : Env) (hcomp : ∀ b, env.compress b = b) (h
           subst hqe
           refine ⟨rfl, hnrel, ?_⟩
           unfold Conn.decodePayload
-          simp only [hemp', Bool.not_false, and_self, if_true, hnrel, Bool.false_eq_true, if_false, hon, hc, hdec]
+          simp only [hcne, Bool.not_false, and_self, if_true, hnrel, Bool.false_eq_true, if_false, hon, hc, hl.round]
 
 end Nx.L1
